@@ -63,6 +63,7 @@ type PathState struct {
 	Blocks []int // witness: block indices walked
 	phi    map[*ssa.Phi]ssa.Value
 	mem    map[*ssa.Alloc]ssa.Value // last value stored into tracked local cells on this path
+	loads  map[*ssa.UnOp]ssa.Value  // value each executed load of a tracked cell observed on this path
 	Sink   ssa.Instruction
 	armed  bool // the From instruction has been passed (always true when the query has no From)
 	// ArmedAt is the index into Blocks of the block containing From (0 without From).
@@ -88,7 +89,12 @@ func (s *PathState) Resolve(v ssa.Value) ssa.Value {
 			if !ok {
 				return v
 			}
-			r, ok := s.mem[al]
+			// the value this very load observed when it executed on the path; for loads the path has not
+			// executed (or executed before the cell was known) fall back to the cell's current content
+			r, ok := s.loads[x]
+			if !ok {
+				r, ok = s.mem[al]
+			}
 			if !ok || r == v {
 				return v
 			}
@@ -276,7 +282,7 @@ func (q *PathQuery) Run() ([]*PathState, error) {
 			return out, fmt.Errorf("path exploration exceeded %d states in %s", q.MaxStates, fn)
 		}
 		st := cur.st
-		st = &PathState{Lits: st.Lits, Events: st.Events, Blocks: append(append([]int{}, st.Blocks...), cur.blk.Index), phi: st.phi, mem: st.mem, armed: st.armed, ArmedAt: st.ArmedAt}
+		st = &PathState{Lits: st.Lits, Events: st.Events, Blocks: append(append([]int{}, st.Blocks...), cur.blk.Index), phi: st.phi, mem: st.mem, loads: st.loads, armed: st.armed, ArmedAt: st.ArmedAt}
 		ended := false
 		for i := cur.idx; i < len(cur.blk.Instrs); i++ {
 			in := cur.blk.Instrs[i]
@@ -303,6 +309,27 @@ func (q *PathQuery) Run() ([]*PathState, error) {
 				st.ArmedAt = len(st.Blocks) - 1
 			}
 			switch x := in.(type) {
+			case *ssa.UnOp:
+				if x.Op == token.MUL {
+					if al, ok := x.X.(*ssa.Alloc); ok && cells[al] != cellNone {
+						if cur, ok := st.mem[al]; ok {
+							nl := make(map[*ssa.UnOp]ssa.Value, len(st.loads)+1)
+							for k, v := range st.loads {
+								nl[k] = v
+							}
+							nl[x] = cur
+							st.loads = nl
+						} else if _, had := st.loads[x]; had {
+							nl := make(map[*ssa.UnOp]ssa.Value, len(st.loads))
+							for k, v := range st.loads {
+								if k != x {
+									nl[k] = v
+								}
+							}
+							st.loads = nl
+						}
+					}
+				}
 			case *ssa.Alloc:
 				// a fresh cell holds its zero value: nil for nillable element types
 				if cells[x] != cellNone && nillable(Deref(x.Type())) {
@@ -379,7 +406,7 @@ func addEvent(evs []Event, e Event) []Event {
 
 // enter moves along edge from→to: resolves to's phis (parallel assignment) and forgets loop-local facts on back edges.
 func (q *PathQuery) enter(from, to *ssa.BasicBlock, st *PathState) pstate {
-	ns := &PathState{Lits: st.Lits, Events: st.Events, Blocks: st.Blocks, phi: st.phi, mem: st.mem, armed: st.armed, ArmedAt: st.ArmedAt}
+	ns := &PathState{Lits: st.Lits, Events: st.Events, Blocks: st.Blocks, phi: st.phi, mem: st.mem, loads: st.loads, armed: st.armed, ArmedAt: st.ArmedAt}
 	predIdx := -1
 	for i, p := range to.Preds {
 		if p == from {
@@ -509,7 +536,7 @@ func (q *PathQuery) assume(st *PathState, t *ssa.If, outcome bool) (*PathState, 
 	if q.Relevant != nil && !q.Relevant(t.Cond) && !q.Relevant(cond) {
 		return st, true
 	}
-	ns := &PathState{Lits: append(append([]Lit{}, st.Lits...), lit), Events: st.Events, Blocks: st.Blocks, phi: st.phi, mem: st.mem, armed: st.armed, ArmedAt: st.ArmedAt}
+	ns := &PathState{Lits: append(append([]Lit{}, st.Lits...), lit), Events: st.Events, Blocks: st.Blocks, phi: st.phi, mem: st.mem, loads: st.loads, armed: st.armed, ArmedAt: st.ArmedAt}
 	return ns, true
 }
 
@@ -648,6 +675,13 @@ func stateKey(b *ssa.BasicBlock, idx int, st *PathState, condPhis map[*ssa.Phi]b
 	}
 	sort.Strings(ms)
 	sb.WriteString(strings.Join(ms, ","))
+	sb.WriteString("|")
+	var ls []string
+	for l, v := range st.loads {
+		ls = append(ls, fmt.Sprintf("%p=%p", l, v))
+	}
+	sort.Strings(ls)
+	sb.WriteString(strings.Join(ls, ","))
 	return sb.String()
 }
 
